@@ -116,6 +116,18 @@ def gen_c11(rng, tier):
                         ops.append([5, 0, path, -1, pos, v, 0])
             for k in range(1, len(ops), 80):
                 cases.append(dict(id='cmcor%d_%d_%d' % (ci, nupd, k), ops=[ops[0]] + ops[k:k + 80], tags=['corrupt'], kind='corrupt'))
+    return cases + gen_product_overflow()
+
+def gen_product_overflow():
+    """num_buckets with bit 31 set and an even num_hashes: the 32-bit product of the old constructor wrapped to a small table
+       (stream reader accepted the image, every later update / get_estimate indexed outside the table)"""
+    cases = []
+    for nh, nb in [(2, 5), (4, 3), (2, 3), (6, 7)]:
+        ops = [[1, 0, nh, nb, DEFAULT_SEED, 1, 3, 2, 1]]
+        for path in (0, 1):
+            for v in (0x80, 0xc0):
+                ops.append([5, 0, path, -1, 11, v, 0])
+        cases.append(dict(id='cmwrap_%d_%d' % (nh, nb), ops=ops, tags=['corrupt', 'product-overflow'], kind='corrupt'))
     return cases
 
 def oracle(case, irecs, mrecs):
@@ -142,6 +154,11 @@ def oracle(case, irecs, mrecs):
             elif pos < 0 and 0 <= cut < L:
                 if R != [-1]:
                     fails.append(dict(sig='cm_prefix_accepted', what='path %d: strict prefix of length %d of a %d-byte image accepted' % (path, cut, L), op_index=i))
+        if op[0] == 5 and R[:1] == [1]:
+            body = R[1:] if op[2] == 0 else R[2:]
+            if len(body) >= 5 and body[0] * body[1] != body[4]:
+                fails.append(dict(sig='cm_accepted_table_size_mismatch', what='path %d: an image (byte %d replaced by %#x) is accepted as a sketch with num_hashes %d x num_buckets %d = %d '
+                                  'logical cells but a table of %d cells: every update / get_estimate indexes outside it' % (op[2], op[4], op[5], body[0], body[1], body[0] * body[1], body[4]), op_index=i))
         if op[0] in (3, 4) and case.get('kind') == 'doc':
             exp = case['expect']
             want = ([1] + exp) if op[0] == 3 else ([1, case['imglen']] + exp)
